@@ -4,17 +4,20 @@ import Aiorpcx.C05.Model
 import Aiorpcx.Facts.C05
 /-! Line-protocol driver for the C05 model.  Guards = `Facts.C05.guards` (read from /repo).
 
-    recv <P> <k> <key>*k <outcome>
-        key     = S <J id> | B <J array of ids>
+    recv <P> <k> <entry>*k <outcome> (| <outcome>)*
+        entry   = S <J id> | B <J array of ids>          the future is pending
+                | Sc .. | Bc ..                          the waiter gave up (future cancelled)
+                | Sd .. | Bd ..                          the future is already resolved
         outcome = V <J payload> | unicode | json | recursion | intdigits
-      -> <P'> <k'> <key>*k' | <result>
+      -> <step> (|| <step>)*        one step per outcome, on the same connection
+        step    = <P'> <k'> <entry>*k' | <result>
         result  = ok <n> <item>*n <done>      item = R <s> <J args> <J id> | N <s> <J args>
-                                              done = - | <key> <completion>
+                                              done = - | <key> <completion> | D <key>
                 | PE <code> <masked reply J or -> <response id J or ->
                 | PY <ExceptionName>
         completion = V <J> | E <J code> <s msg> | X <code> | L <n> <completion>*n
-    sess <P> <k> <key>*k <outcome> (| <outcome>)*
-      -> <phase> <obs>,<obs>,…        obs = spawn<n> | reply | silent | resolved | crash:<Exc> | -
+    sess <P> <k> <entry>*k <outcome> (| <outcome>)*
+      -> <phase> <obs>,<obs>,…   obs = spawn<n> | reply | silent | resolved | discarded | crash:<Exc> | -
 -/
 open Aiorpcx Aiorpcx.Py Aiorpcx.C04 Aiorpcx.C05 Aiorpcx.JWire
 
@@ -65,26 +68,37 @@ def showItem : Item × J → String
 
 def showRecv (r : Recv) : String :=
   s!"ok {r.items.length}" ++ String.join (r.items.map fun i => " " ++ showItem i) ++ " " ++
-    (match r.completed with
-     | none => "-"
-     | some (k, c) => showKey k ++ " " ++ showCompletion c)
+    (match r.completed, r.discarded with
+     | some (k, c), _ => showKey k ++ " " ++ showCompletion c
+     | none, some k => "D " ++ showKey k
+     | none, none => "-")
+
+def showEntry (en : Entry) : String :=
+  let sfx := match en.fut with | .pending => "" | .cancelled => "c" | .finished => "d"
+  match en.key with
+  | .single i => s!"S{sfx} " ++ showJ i
+  | .batch ids => s!"B{sfx} " ++ showJ (.arr ids)
 
 def showConn (c : Conn) : String :=
-  s!"{showProto c.proto} {c.out.length}" ++ String.join (c.out.map fun k => " " ++ showKey k)
+  s!"{showProto c.proto} {c.out.length}" ++ String.join (c.out.map fun k => " " ++ showEntry k)
 
-/-- parse `k` keys -/
-def parseKeys : Nat → List String → Option (List Key × List String)
+def parseTag : String → Option (Bool × Fut)
+  | "S" => some (true, .pending) | "Sc" => some (true, .cancelled) | "Sd" => some (true, .finished)
+  | "B" => some (false, .pending) | "Bc" => some (false, .cancelled) | "Bd" => some (false, .finished)
+  | _ => none
+
+/-- parse `k` entries -/
+def parseKeys : Nat → List String → Option (List Entry × List String)
   | 0, toks => some ([], toks)
-  | k + 1, "S" :: rest => do
-      let (i, r1) ← parsePrefix rest
-      let (ks, r2) ← parseKeys k r1
-      pure (.single i :: ks, r2)
-  | k + 1, "B" :: rest => do
+  | k + 1, tag :: rest => do
+      let (single, fut) ← parseTag tag
       let (v, r1) ← parsePrefix rest
       let (ks, r2) ← parseKeys k r1
-      match v with
-      | .arr ids => pure (.batch ids :: ks, r2)
-      | _ => none
+      if single then pure (⟨.single v, fut⟩ :: ks, r2)
+      else
+        match v with
+        | .arr ids => pure (⟨.batch ids, fut⟩ :: ks, r2)
+        | _ => none
   | _, _ => none
 
 def parseOutcome : List String → Option LoadsOutcome
@@ -104,6 +118,7 @@ def showObs : Obs → String
   | .spawned items => s!"spawn{items.length}"
   | .replied _ => "reply"
   | .resolved _ _ => "resolved"
+  | .discarded _ => "discarded"
   | .silent => "silent"
   | .crashed e => "crash:" ++ e.name
 
@@ -113,9 +128,17 @@ def showPhase : Phase → String
 def runSess (g : Guards) : Sess → List LoadsOutcome → List String → Sess × List String
   | s, [], acc => (s, acc.reverse)
   | s, o :: rest, acc =>
-      let r := loopStep g s o .sent
+      let r := loopStep g s o {}
       let shown := if r.2.isEmpty then "-" else "+".intercalate (r.2.map showObs)
       runSess g r.1 rest (shown :: acc)
+
+/-- a sequence of messages handed to one connection -/
+def runRecv (g : Guards) : Conn → List LoadsOutcome → List String → List String
+  | _, [], acc => acc.reverse
+  | c, o :: rest, acc =>
+      let (c', res) := receiveMessage g c o
+      let shown := showConn c' ++ " | " ++ (match res with | .ok r => showRecv r | .error e => showExc e)
+      runRecv g c' rest (shown :: acc)
 
 def handle (line : String) : String :=
   let g := Aiorpcx.Facts.C05.guards
@@ -125,10 +148,8 @@ def handle (line : String) : String :=
       | some P, some k =>
           match parseKeys k rest with
           | some (keys, r1) =>
-              match parseOutcome r1 with
-              | some o =>
-                  let (c, res) := receiveMessage g { proto := P, out := keys } o
-                  showConn c ++ " | " ++ (match res with | .ok r => showRecv r | .error e => showExc e)
+              match (splitBar r1 [] []).mapM parseOutcome with
+              | some os => " || ".intercalate (runRecv g { proto := P, out := keys } os [])
               | none => "bad-op"
           | none => "bad-op"
       | _, _ => "bad-op"
